@@ -12,6 +12,8 @@ import subprocess
 ROOT = os.path.dirname(os.path.dirname(os.path.abspath(__file__)))
 
 MAP = [
+    ("GetHeadersMessage refuses a hash count other than the one locator hash", "C19", "GetHeadersMessage(num_hashes=k) wrote the count k but always one locator hash: for k != 1 the payload is not a getheaders message"),
+    ("the p2wpkh signing helpers put the compressed public key into the witness", "C06", "sign_p2wpkh / sign_p2sh_p2wpkh with a key object carrying compressed=False (parsed from an uncompressed WIF) put the 65-byte key into the witness of an output committing to the compressed key: the library's own spend did not verify"),
     ("PSBTIn.validate refuses a RedeemScript or WitnessScript in a slot the spent output does not use", "C11", "the wallet's script attached as RedeemScript to a foreign P2WSH UTXO, or as WitnessScript to a foreign P2SH / P2TR / bare output: never compared with the spent output, the input was summarised as a wallet input"),
     ("the multisig summary requires a key's path to lie below the path stated for its xpub", "C11", "global xpubs at m/48'/1'/0'/2' while every derivation record said m/99'/7'/7'/7'/b/i: summarised, change labelled, root paths reported where the keys are not"),
     ("PrivateKey.wif uses the key's own compression flag", "C09", "PrivateKey.parse(uncompressed WIF).wif() returned the compressed WIF (the default argument shadowed the key's flag)"),
